@@ -601,12 +601,11 @@ Qed.
 
 End Sweep4.
 
-Theorem gc_spec : forall t roots t' o,
-  Inv t -> gc t roots = (t', o) ->
-  Inv t' /\ live t' = filter (SweepFacts.mk (gc_mark t roots)) (live t).
+Theorem gc_with_spec : forall mm t t' o,
+  Inv t -> gc_with mm t = (t', o) ->
+  Inv t' /\ live t' = filter (SweepFacts.mk mm) (live t).
 Proof.
-  intros t roots t' o HI Hg. unfold gc in Hg.
-  set (mm := gc_mark t roots) in *.
+  intros mm t t' o HI Hg. unfold gc_with in Hg.
   destruct (sweep_order_spec t) as [Hnd Hord].
   assert (HJ0 : J mm t t (repeat [] (length (flist t))) []).
   { constructor.
